@@ -38,7 +38,7 @@ CHECKS = {
    "Attribute kinds bool/float/duration/time are checked by key presence only (their rendering is C04/C05); duplicate keys are not generated (C07).",
    "deterministic simulation: derivation histories, I/O counts at simulated destinations, process death as observation", "DESIGN.md §5 C15"),
  "C16": ("HIST", "exploration",
-   "The simulated clock (years 0001-9999, zones, jumps, granularity) is the only clock logg reads; configurations (flags, UTC mode, layouts, formats) are sampled; the printed time text must equal the record's instant - the single clock read of the call, or the explicit instant of WriteThru - moved to the zone the statement gives and formatted with the logger layout or the exported layout constant matching the flags. A third of the episodes also hand explicit slog.Records (the epoch, the last instant of year 9999; not the zero time, which by log/slog's contract means no time - that instant goes to WriteThru) to the log/slog adapter; bursts of records share one Unix second in different zones.",
+   "The simulated clock (years 0001-9999, zones, jumps, granularity) is the only clock logg reads; configurations (flags, UTC mode, layouts, formats) are sampled; the printed time text must equal the record's instant - the single clock read of the call, or the explicit instant of WriteThru - moved to the zone the statement gives and formatted with the logger layout or the exported layout constant matching the flags. A third of the episodes also hand explicit slog.Records (the epoch, the last instant of year 9999; not the zero time, which by log/slog's contract means no time - that instant goes to WriteThru) to the log/slog adapter; bursts of records share one Unix second in different zones; a third of the explicit instants carry time.Local itself while the world has set it to another zone than the process started under.",
    "For the three flag sets without a matching exported layout any exported layout is accepted. time.Time.Format is the reference for 'formatted with layout'.",
    "deterministic simulation: simulated clock with jumps/zones, configuration sampling", "DESIGN.md §5 C16"),
  "C17": ("PROC", "exploration",
@@ -58,7 +58,7 @@ CHECKS.update({
    "The argument space itself is workload generation; the simulation ingredients are the recorded I/O history per destination and the pool-recycling tape. Admission and selection come from the C01/C03 reference models. Values whose own methods panic and cyclic values are excluded by the statement.",
    "deterministic simulation: per-call I/O histories at simulated destinations, pool-recycling tape, reference admission and routing models", "DESIGN.md §5 C02"),
  "C08": ("CONC+CONC-race", "exploration",
-   "Seeded search over schedules of 1-64 caller tasks: exactly one task runs at a time and a tape decides who runs at every user-callback boundary (attribute Key/Value, String, Error, context Value, Write entry/exit, stalls), so preemption happens inside the sort, dedupe and serialisation of a record. Every payload must be the complete record of exactly one call (unique token and values, and with the caller field on, the call site of the issuing statement), per-destination conservation must hold (records are matched to calls by content, not by the goroutine that wrote them), and the same workloads run in a race-transparent world (tasks parked by spinning in norace code, GOMAXPROCS=1) where the Go race detector must stay silent. Scheduling styles are mixed per episode: stay-probability, PCT-like d preemptions at random depths, and both in a world built with overlay rule R4 where every function entry of package slog (463 sites) is a yield point.",
+   "Seeded search over schedules of 1-64 caller tasks: exactly one task runs at a time and a tape decides who runs at every user-callback boundary (attribute Key/Value, String, Error, context Value, Write entry/exit, stalls), so preemption happens inside the sort, dedupe and serialisation of a record. Every payload must be the complete record of exactly one call (unique token and values - per-call attributes and, in a third of the episodes, the values the call's own context holds for the logger's context keys - and with the caller field on, the call site of the issuing statement), per-destination conservation must hold (records are matched to calls by content, not by the goroutine that wrote them), and the same workloads run in a race-transparent world (tasks parked by spinning in norace code, GOMAXPROCS=1) where the Go race detector must stay silent. Scheduling styles are mixed per episode: stay-probability, PCT-like d preemptions at random depths, and both in a world built with overlay rule R4 where every function entry of package slog (463 sites) is a yield point.",
    "Preemption points are callback boundaries (all episodes) and function entries of package slog (fine-world episodes); a switch between two statements without a call in between is reachable only for the race detector. The race detector keeps a bounded access history (race episodes are short). In the race world the real sync.Pool runs, so pooled-object choice is not on the tape there (replay retries up to 8 times).",
    "deterministic simulation: seeded scheduler over real goroutines, schedule tape, destination stalls, happens-before race detection made schedule-deterministic", "DESIGN.md §5 C08, §2.4"),
  "C09": ("CONC", "exploration",
@@ -66,7 +66,7 @@ CHECKS.update({
    "No configuration change between the two probes; in twin episodes both loggers see the same configuration calls (generator invariants, enforced for minimised scenarios).",
    "deterministic simulation: histories x schedules x pool-recycling tape, byte equality", "DESIGN.md §5 C09"),
  "C12": ("PROC+CONC", "fault_enumeration",
-   "Complete enumeration of the termination matrix (entry point x flags x process mode x admitted x format = 672 cells), each in its own world process whose death is the crash point: the record must be complete in a real file read after the process is gone, a Panic must be recoverable with the message as value, a Fatal must exit with status 253 with nothing after the record, every other cell and every other severity must run on to the end marker. A third of the seed variants put a permanently failing member in front of the durable one in the error device (crash point x fault), a quarter make the terminating call while calls of one or two other goroutines on another logger are in flight under the seeded scheduler - Writes that stall, stall and then fail (their diagnostic being one more call in flight), or never return - (the cell must terminate by itself, the other calls must neither panic nor exit), and some cell calls carry 60-2500 attributes.",
+   "Complete enumeration of the termination matrix (entry point x flags x process mode x admitted x format = 672 cells), each in its own world process whose death is the crash point: the record must be complete in a real file read after the process is gone, a Panic must be recoverable with the message as value, a Fatal must exit with status 253 with nothing after the record, every other cell and every other severity must run on to the end marker. A third of the seed variants put a permanently failing member in front of the durable one in the error device (crash point x fault), a quarter make the terminating call while calls of one or two other goroutines on another logger are in flight under the seeded scheduler - Writes that stall, stall and then fail (their diagnostic being one more call in flight), or never return - (the cell must terminate by itself, the other calls must neither panic nor exit), some cell calls carry 60-2500 attributes, and a third of the world processes are started with further command-line arguments that are no -test.* flags (serve -bench, --testing -v, ...).",
    "Process mode is spoofed through argv0/-test.* exactly as hedzr/is reads it. Messages, attributes and surrounding calls are sampled per seed.",
    "deterministic simulation: one OS process per cell, process death as crash point, durable destination read after death", "DESIGN.md §5 C12"),
  "C13": ("CONC", "fault_enumeration",
@@ -74,7 +74,7 @@ CHECKS.update({
    "Faults are attached to write attempts, so they always land inside a call. After a short write without error a diagnostic is allowed, never required (the statement does not say whether that is a failed Write). The package defaults (fd 1/2) are not part of these configurations.",
    "deterministic simulation with fault injection at simulated destinations: enumerated fault assignments + seeded fault sequences", "DESIGN.md §5 C13"),
  "C19": ("BUF", "exploration",
-   "Seeded histories of the 20 listed methods on a PrintCtx and on bytes.Buffer (the reference model, run in lock-step in the same world) with boundary arguments and fault-injecting io.Reader/io.Writer peers given an identical fault script; after every call the results, error identity, panic and remaining contents must agree.",
+   "Seeded histories of the 20 listed methods on a PrintCtx and on bytes.Buffer (the reference model, run in lock-step in the same world) with boundary arguments and fault-injecting io.Reader/io.Writer peers given an identical fault script; after every call the results, error identity, panic and remaining contents must agree, and every string a call has returned is re-read after every later step (a string is a value: later writes must not show through it).",
    "Reference = bytes.Buffer of the default toolchain. runtime.Error panics are compared as a class, other panics and errors by text after mapping the type name. Sizes that would really allocate more than 1 MiB are not generated.",
    "deterministic simulation: lock-step differential execution against the reference, faulty I/O peers", "DESIGN.md §5 C19"),
 })
